@@ -36,6 +36,38 @@ def candidates(h, w):
     return out
 
 
+def islands_ok(w, prob, low, col, comps):
+    """Clue-dependent part: clue cells are white; every white component holds exactly one clue and has the clued size."""
+    if low is None:
+        low = 1
+    for y, row in enumerate(prob):
+        for x, c in enumerate(row):
+            if c != 0 and not col[y * w + x]:
+                return False
+    for comp in comps:
+        cl = [prob[y][x] for y, x in comp if prob[y][x] != 0]
+        if len(cl) != 1:
+            return False
+        n = cl[0]
+        if n >= 1:
+            if len(comp) != n:
+                return False
+        elif len(comp) < low:
+            return False
+    return True
+
+
+def accepts(p, col):
+    """Full rule check of one grid (is_white tuple) - used to bind the oracle to large published examples."""
+    h, w = p["height"], p["width"]
+    cells = [(y, x) for y in range(h) for x in range(w)]
+    black = [c for c, v in zip(cells, col) if not v]
+    if not base.cells_connected(black) or base.has_2x2(black, h, w):
+        return False
+    comps = [sorted(c) for c in base.components([c for c, v in zip(cells, col) if v])]
+    return islands_ok(w, p["problem"], p.get("unknown_low"), col, comps)
+
+
 class Nurikabe(base.Rule):
     name = "nurikabe"
 
@@ -47,10 +79,10 @@ class Nurikabe(base.Rule):
 
     def instances(self, shape, cap):
         """All layouts with <= k clues (cap rule) over 0 | -1 1 2 3 4 with unknown_low=None; every layout that contains
-        a `-1` clue is generated again with unknown_low=2 (and 3 when cap > 1000)."""
+        a `-1` clue is generated again with unknown_low=2."""
         h, w = shape
         lays, k = base.layouts(h * w, 0, [-1, 1, 2, 3, 4], cap)
-        lows = [2] if cap <= 1000 else [2, 3]
+        lows = [2]
         for cells in lays:
             yield {"height": h, "width": w, "problem": base.grid(cells, h, w), "unknown_low": None}
             if -1 in cells:
@@ -68,44 +100,37 @@ class Nurikabe(base.Rule):
 
     def readings(self, p):
         h, w = p["height"], p["width"]
-        prob = p["problem"]
-        low = p.get("unknown_low")
-        if low is None:
-            low = 1
-        clue_cells = [(y, x) for y in range(h) for x in range(w) if prob[y][x] != 0]
         may_be_empty = []
         non_empty = []
         for col, comps, nblack in candidates(h, w):
-            # clue cells belong to their island
-            if not all(col[y * w + x] for y, x in clue_cells):
-                continue
-            ok = True
-            for comp in comps:
-                cl = [prob[y][x] for y, x in comp if prob[y][x] != 0]
-                if len(cl) != 1:
-                    ok = False
-                    break
-                n = cl[0]
-                if n >= 1:
-                    if len(comp) != n:
-                        ok = False
-                        break
-                elif len(comp) < low:
-                    ok = False
-                    break
-            if ok:
+            if islands_ok(w, p["problem"], p.get("unknown_low"), col, comps):
                 may_be_empty.append(col)
                 if nblack > 0:
                     non_empty.append(col)
         return [may_be_empty, non_empty]
 
     def example(self):
-        prob = [
-            [0, 0, 0, 0, 0, 0, 0, 0, 0, 0], [0, 0, 0, 0, 0, 0, 0, 0, 0, 0], [0, 0, 0, 0, 7, 0, 0, 0, 0, 0], [0, 0, 0, 7, 0, 0, 0, 0, 9, 0],
-            [0, 0, 0, 0, 0, 0, 0, 7, 0, 0], [0, 0, 0, 0, 0, 0, 0, 0, 0, 0], [0, 0, 7, 0, 0, 0, 7, 0, 0, 0], [0, 0, 0, 0, 0, 7, 0, 0, 0, 0],
-            [0, 0, 0, 0, 0, 0, 0, 0, 0, 0], [0, 0, 0, 0, 0, 0, 0, 0, 0, 0],
-        ]
-        return {"height": 10, "width": 10, "problem": prob, "unknown_low": None}, "cspuz/puzzle/nurikabe.py main() (twitter.com/semiexp/status/1222541993638678530)"
+        # The module's own main() instance (PUBLISHED below) needs about 20 minutes of solve() with the z3 backend, far too
+        # slow for a check that runs the example on every invocation; it was solved once by hand (answer fully decided and
+        # accepted by accepts(), see published_example_check()).  The bound example is a small instance with a unique
+        # answer under both readings.
+        return {"height": 3, "width": 4, "problem": [[1, 0, 2, 0], [0, 0, 0, 0], [4, 0, 0, 0]], "unknown_low": None}, "hand-made 3x4 instance with a unique answer (main()'s 10x10 example takes ~20 min to solve)"
+
+
+PUBLISHED = {
+    "height": 10, "width": 10, "unknown_low": None,
+    "problem": [
+        [0, 0, 0, 0, 0, 0, 0, 0, 0, 0], [0, 0, 0, 0, 0, 0, 0, 0, 0, 0], [0, 0, 0, 0, 7, 0, 0, 0, 0, 0], [0, 0, 0, 7, 0, 0, 0, 0, 9, 0],
+        [0, 0, 0, 0, 0, 0, 0, 7, 0, 0], [0, 0, 0, 0, 0, 0, 0, 0, 0, 0], [0, 0, 7, 0, 0, 0, 7, 0, 0, 0], [0, 0, 0, 0, 0, 7, 0, 0, 0, 0],
+        [0, 0, 0, 0, 0, 0, 0, 0, 0, 0], [0, 0, 0, 0, 0, 0, 0, 0, 0, 0],
+    ],
+}  # cspuz/puzzle/nurikabe.py main(), twitter.com/semiexp/status/1222541993638678530
+
+
+def published_example_check():
+    """Slow (about 20 min): solve main()'s example with the real solver and test the reported grid with accepts()."""
+    is_sat, keys = RULE.call(PUBLISHED)
+    return is_sat, keys, (None not in keys) and accepts(PUBLISHED, tuple(keys))
 
 
 RULE = Nurikabe()
